@@ -391,3 +391,90 @@ def _build_parse(d):
 def install_funnel():
     NATIVE.add("pydsdl._error.Error.set_error_location_if_unknown", _gen_error_location, _build_error_location)
     NATIVE.add(E.PARSER + "parse", _gen_parse, _build_parse)
+
+
+# ---- service types as type expressions (specs/c13_types.py)
+def _mk_composite(kind):
+    from pathlib import Path
+    from pydsdl import _serializable as S
+
+    u8 = S.UnsignedIntegerType(8, S.PrimitiveType.CastMode.SATURATED)
+
+    def struct(name, parent):
+        comps = name.split(".")
+        path = Path(*comps[:-2 if parent else -1]) / ("%s.1.0.dsdl" % comps[-2 if parent else -1])
+        return S.StructureType(name=name, version=S.Version(1, 0),
+                               attributes=[S.Field(u8, "a"), S.Constant(u8, "K", __import__("pydsdl")._expression.Rational(7))],
+                               deprecated=False, fixed_port_id=None, source_file_path=path, has_parent_service=parent)
+
+    if kind == "service":
+        return S.ServiceType(struct("ns.S.Request", True), struct("ns.S.Response", True), None)
+    if kind == "delimited":
+        return S.DelimitedType(struct("ns.M", False), 64)
+    if kind == "u8":
+        return u8
+    return struct("ns.M", False)
+
+
+def _gen_type_attr(rng, i):
+    return {"t": rng.choice(["service", "struct", "delimited"]), "name": rng.choice(["_extent_", "_bit_length_", "K", "foo", ""])}
+
+
+def _build_type_attr(d):
+    from pydsdl import _expression as X, _serializable as S
+
+    t, name = _mk_composite(d["t"]), X.String(d["name"])
+    return (lambda: S.CompositeType._attribute(t, name)), {"self": t, "name": name}
+
+
+def _gen_extent(rng, i):
+    return {"t": rng.choice(["service", "struct"])}
+
+
+def _build_extent(d):
+    from pydsdl import _serializable as S
+
+    t = _mk_composite(d["t"])
+    return (lambda: S.CompositeType.extent.fget(t)), {"self": t}
+
+
+def _gen_array_init(rng, i):
+    return {"elem": rng.choice(["u8", "struct", "service"]), "capacity": rng.choice([-1, 0, 1, 2, 300]),
+            "cls": rng.choice(["ArrayFixed", "ArrayVariable"])}
+
+
+def _build_array_init(d):
+    from pydsdl import _serializable as S
+
+    e = _mk_composite(d["elem"])
+    cls = S.FixedLengthArrayType if d["cls"] == "ArrayFixed" else S.VariableLengthArrayType
+    return (lambda: cls(e, d["capacity"])), {"element_type": e, "capacity": d["capacity"]}
+
+
+def _gen_array_visitor(rng, i):
+    return {"elem": rng.choice(["u8", "struct", "service"]), "len": _gen_any(rng, {"k": "rat"})}
+
+
+def _build_array_visitor(name, n_children, len_idx):
+    def build(d):
+        from pydsdl import _parser as P
+
+        ch = [None] * n_children
+        ch[0] = _mk_composite(d["elem"])
+        ch[len_idx] = _mk(d["len"])
+        ch = tuple(ch)
+        return (lambda: getattr(P._ParseTreeProcessor, name)(None, None, ch)), {"_n": None, "children": ch}
+
+    return build
+
+
+def install_types(reg):
+    S = "pydsdl._serializable."
+    NATIVE.add(S + "_composite.CompositeType._attribute", _gen_type_attr, _build_type_attr)
+    NATIVE.add(S + "_composite.CompositeType.extent", _gen_extent, _build_extent)
+    NATIVE.add(S + "_array.ArrayType.__init__", _gen_array_init, _build_array_init)
+    NATIVE.add(E.PTP + "visit_type_array_fixed", _gen_array_visitor, _build_array_visitor("visit_type_array_fixed", 7, 4))
+    NATIVE.add(E.PTP + "visit_type_array_variable_inclusive", _gen_array_visitor,
+               _build_array_visitor("visit_type_array_variable_inclusive", 9, 6))
+    NATIVE.add(E.PTP + "visit_type_array_variable_exclusive", _gen_array_visitor,
+               _build_array_visitor("visit_type_array_variable_exclusive", 9, 6))
